@@ -19,7 +19,7 @@ MOD = "bbverif.checks.c02"
 META = ["plain", "target", "target_opts", "type", "target_type_opts", "device", "blank_lines", "str_opts"]
 STMTS = ["noargs1", "noargs2_sq", "noargs2_rb", "noargs2_bare", "pos_num", "pos_mixed", "kw_num", "kw_list", "kw_mixed",
          "pos_kw", "measure", "measure_kw", "var_int_mode", "var_float_arg", "var_expr", "var_str_bool", "array_arg",
-         "array_idx", "loop_list", "loop_repeat", "loop_range", "trailing_comma", "expr_mode", "complex_arg", "empty_args", "str_like_literals"]
+         "array_idx", "loop_list", "loop_repeat", "loop_range", "trailing_comma", "expr_mode", "complex_arg", "empty_args", "str_like_literals", "number_spellings"]
 
 
 class Env:
@@ -66,6 +66,9 @@ def stmt_lines(kind, env):
     m = env.mode
     if kind == "noargs1":
         return ["Vac | %s" % m()]
+    if kind == "number_spellings":
+        # the same numbers written with leading zeros, upper-case / signed exponents, trailing zeros (concrete literals)
+        return ["int n = 007", "Dgate(0100, 01.50, 1e05, 1E+2, 2.50e-01, k=00, j=007+02j) | [01, 002]", "Vac | n", "Rgate(1e+16, 0.000001, 123456789012345678) | 3"]
     if kind == "str_like_literals":
         v = env.name("s")
         return ['str %s = "False"' % v, 'Gate("True", "False", %s, k="pi", names=["1", "None", "True", "q0"], w=%s) | %s' % (lv.float(), v, m()),
